@@ -107,6 +107,11 @@ func (a *AuthorRequest) Validate() error {
 			return err
 		}
 	}
+	for _, t := range []Field{a.User, a.Port, a.RemAddr, a.Args} {
+		if err := validateWireLen("AuthorRequest field", t.Len(), maxUint8Len); err != nil {
+			return err
+		}
+	}
 	for _, t := range a.Args {
 		if err := t.Validate(nil); err != nil {
 			return err
@@ -285,6 +290,14 @@ func (a *AuthorReply) Validate() error {
 		if err := t.Validate(nil); err != nil {
 			return err
 		}
+	}
+	for _, t := range []Field{a.ServerMsg, a.Data} {
+		if err := validateWireLen("AuthorReply field", t.Len(), maxUint16Len); err != nil {
+			return err
+		}
+	}
+	if err := validateWireLen("AuthorReply argument count", a.Args.Len(), maxUint8Len); err != nil {
+		return err
 	}
 	for _, t := range a.Args {
 		if err := t.Validate(nil); err != nil {
